@@ -90,6 +90,18 @@ fn pure(e: &Expr) -> bool {
     }
 }
 
+/// `r` is a ++ / -- of a plain variable that `l` does not mention: `l op= r` and `l = l op r`
+/// still mean the same
+fn side_effect_apart(r: &Expr, l: &LV) -> bool {
+    match strip(r) {
+        Expr::IncDec { lv: LV::Var(v), .. } => match l {
+            LV::Var(w) => v != w,
+            _ => false,
+        },
+        _ => false,
+    }
+}
+
 fn pure_lv(l: &LV) -> bool {
     match l {
         LV::Idx(_, i) | LV::PtrIdx(_, i) => pure(i),
@@ -360,7 +372,7 @@ impl<'a> Rw<'a> {
                 }
             }
             (RK::OpToAssign, Expr::OpAssign(op, l, r))
-                if pure(&r)
+                if (pure(&r) || side_effect_apart(&r, &l))
                     && pure_lv(&l)
                     // `s = s << n` on a short is outside what C01 judges (16-bit destinations take
                     // operands whose high byte can be named: known finding, pinned pair wide_shift_assign)
